@@ -287,4 +287,7 @@ func addStats(a *raftdrv.Stats, b raftdrv.Stats) {
 	a.Drops += b.Drops
 	a.StaleLeaderSteps += b.StaleLeaderSteps
 	a.EmptyRestarts += b.EmptyRestarts
+	a.VoteGrantsSent += b.VoteGrantsSent
+	a.AcksSent += b.AcksSent
+	a.CommitQuorumChecks += b.CommitQuorumChecks
 }
